@@ -37,6 +37,9 @@ def effective(o):
         if o.get("h%sfd" % k) is not None:
             eff.append("self:%d" % o["h%sfd" % k])   # the caller's own descriptor N given as the handle
             continue
+        if o.get("f%sstd" % k) is not None:
+            eff.append("self:%d" % o["f%sstd" % k])  # the caller's own stdout/stderr FILE given as the FILE
+            continue
         if ty == R_DEFAULT:
             if s > 0 and o.get("rfile"):
                 ty = "sfile"
@@ -68,12 +71,13 @@ def gen_c10(tier, seed):
             {"houtfd": 1}, {"herrfd": 2}, {"herrfd": 1, "houtfd": 1}, {"houtfd": 2, "herrfd": 1},
             {"hinfd": 1, "out": R_DISCARD}, {"hinfd": 2, "houtfd": 2, "herrfd": 1},
             {"houtfd": 2, "in": R_PIPE, "err": R_PARENT}]
+    SELF += [{"ferrstd": 1}, {"ferrstd": 1, "out": R_DISCARD}, {"foutstd": 2}, {"foutstd": 2, "ferrstd": 1}, {"foutstd": 2, "err": R_STDOUT}]
     combos += SELF
     cases = []
     idx = 0
     masks = range(8)
     for ci, o in enumerate(combos):
-        used = [o[k] for k in ("hinfd", "houtfd", "herrfd") if k in o]
+        used = [o[k] for k in ("hinfd", "houtfd", "herrfd", "foutstd", "ferrstd") if k in o]
         for mask in list(masks) + [8]:
             if mask < 8 and any(mask & (1 << fd) for fd in used):
                 continue   # passing a closed descriptor as a handle is not a valid configuration
